@@ -48,7 +48,7 @@ PACKAGE = T(buildpack=(PKG_BP, True, True), dependencies=(A(PKG_DEP), False, Fal
 
 FORMATS = {"component": COMPONENT, "composite": COMPOSITE, "buildpack_plan": PLAN, "layer_toml": LAYER, "launch": LAUNCH, "store": STORE, "package": PACKAGE}
 
-IDS = ["heroku/java", "a", "a.b/c-d", "x/y/z", "0", "samples/ruby"]
+IDS = ["heroku/java", "a", "a.b/c-d", "x/y/z", "0", "samples/ruby", "App", "CONFIG", "Sbom", "apps", "my-app", "config.d", "a" * 300]      # not reserved: only the exact lower-case words are
 VERSIONS = ["0.0.1", "1.2.3", "10.20.30", "0.0.0", "18446744073709551615.0.1"]
 SBOM = ["application/vnd.cyclonedx+json", "application/spdx+json", "application/vnd.syft+json"]
 STR = ["", "plain", 'q"uote', "nl\nline", "café", "日本語", "with space", "back\\slash", "#hash", "x" * 120]
